@@ -516,7 +516,7 @@ func (h *hist) endBlock() bool {
 var weightPool = []string{"1", "1", "2", "0.5", "10", "0.1", "1.5", "0.333333333333333333", "3.7", "0.25", "0.000001", "1000000", "0.000000000001"}
 var feePool = []string{"0", "0", "0.01", "0.003", "0.1", "0.5", "1"}
 var slipPool = []string{"0", "0", "0.01", "0.05", "0.001", "0.3"}
-var capPool = []string{"1", "1", "1", "1", "1", "0.9", "0.8", "0.7", "0.6", "0.51", "0.5", "0"}
+var capPool = []string{"1", "1", "1", "1", "1", "0.9", "0.8", "0.7", "0.6", "0.51", "0.5", "0", "2", "1.5"}
 var periodPool = []uint64{1, 10, 100, 3600, 86400}
 var minPool = []int64{0, 1, 1, 1, 10, 100}
 var maxPool = []int64{60000, 20000000, 1000000000, 1000000000000, 1000000000000}
@@ -748,6 +748,21 @@ func (h *hist) genSwap(r *hx.Rng) {
 			x = r.Range(1, lim+1)
 		default:
 			x = r.Range(1, lim/20+1)
+		}
+		if r.Chance(22) { // sweep the out amount around and beyond the basket's reserve of the out token
+			for _, t := range h.cur.B.Tokens {
+				if denomID(t.Denom) == out {
+					res := t.Amount.Int64()
+					want := res + []int64{-1, 0, 1, 2, res/10 + 5, 9 * res}[r.Intn(6)]
+					keep := sdk.OneDec().Sub(h.cur.B.SwapFee)
+					if want > 0 && keep.IsPositive() {
+						x = capI64(sdk.NewDec(want).Mul(t.Weight).Quo(h.weight(in)).Quo(keep)) + r.Range(0, 1)
+					}
+				}
+			}
+			for try := 0; try < 4 && h.bal(a, in) < x; try++ {
+				a = 1 + r.Intn(NH)
+			}
 		}
 		switch r.Intn(40) {
 		case 0:
@@ -1155,6 +1170,20 @@ func scenarios(dist hx.Counter) []*hist {
 	h.burn(2, 0, 200)
 	h.swap(3, []pair{{1, 300, 2}})
 	hs = append(hs, h)
+	// three tokens; swaps whose out amount is the reserve -1 / exactly / +1 / far beyond, while basket 2 holds the same denomination
+	for _, capS := range []string{"1", "2", "0.5"} {
+		c3t := plainConfig("1", "1", "1")
+		c3t.SwapFee, c3t.SlipppageFeeMin, c3t.TokensCap = sdk.ZeroDec(), sdk.ZeroDec(), dec(capS)
+		h = startHist("scenario:swap_out_beyond_reserve_cap_"+capS, c3t, plainFunds(), dist)
+		h.mint(1, []int{1, 2, 3}, []int64{1000, 1000, 1000})
+		h.swap(2, []pair{{3, 999, 1}})
+		h.swap(2, []pair{{3, 1, 1}})
+		h.swap(3, []pair{{3, 1, 1}})
+		h.swap(3, []pair{{3, 1100, 2}})
+		h.swap(4, []pair{{3, 20000, 2}})
+		h.swap(4, []pair{{1, 500, 3}, {2, 700, 3}})
+		hs = append(hs, h)
+	}
 	// a create proposal whose basket carries a recorded amount
 	h = startHist("scenario:create_with_amount_field", plainConfig("1", "2"), plainFunds(), dist)
 	c4 := plainConfig("2", "1")
